@@ -255,7 +255,9 @@ def load_known_findings() -> list[dict]:
         if not line or line.startswith("#"):
             continue
         kind, _, rest = line.partition(":")
-        fields = dict(re.findall(r"(\w+)=(\S+)", rest))
+        fields = {}
+        for k, v in re.findall(r"(\w+)=(\S+)", rest):
+            fields.setdefault(k, v)          # the leading key=value fields; later text may contain `=` too
         fields["kind"] = kind.strip()
         fields["text"] = rest.strip()
         out.append(fields)
